@@ -357,7 +357,14 @@ static rc::Gen<Case> gen_case() {
         if (rawm) {
             size_t hl = raw_header_text(c).size() + 40;
             int pieces = *vr::range<int>(1, 6);
-            for (int i = 0; i < pieces; i++) { Op o; o.k = 'R'; o.n = i + 1 == pieces ? (long)hl : *vr::range<int>(1, (int)hl); c.ops.push_back(o); }
+            // the pieces reach the header parser of the response separately only when the stream is flushed (or unbuffered) in between; cuts inside the
+            // CRLF of the last header line and of the terminating empty line are frequent
+            bool unbuf = *vr::range<int>(0, 4) == 0, fl = *vr::range<int>(0, 2) == 0; long H = (long)raw_header_text(c).size();
+            if (unbuf) { Op b; b.k = 'B'; b.n = *vr::range<int>(0, 4); c.ops.push_back(b); VR.cls("gen.raw_header_unbuffered"); }
+            for (int i = 0; i < pieces; i++) { Op o; o.k = 'R'; o.n = i + 1 == pieces ? (long)hl : *vr::range<int>(1, (int)hl);
+                if (i == 0 && pieces > 1 && *vr::range<int>(0, 2) == 0) { o.n = H - 1 - 2 * *vr::range<int>(0, 2); VR.cls("gen.raw_header_cut_inside_final_crlf"); }
+                c.ops.push_back(o);
+                if (fl && i + 1 < pieces) { Op f; f.k = 'F'; c.ops.push_back(f); VR.cls("gen.raw_header_flushed_between_pieces"); } }
         }
         int nops = *vr::range<int>(0, 14);
         for (int i = 0; i < nops; i++) {
